@@ -16,17 +16,34 @@ def run(tier, only=None):
         sks = [s for s in sks if fnmatch.fnmatch(s.name, only)]
     rep.add(eng.run_family(sks))
     te = tok.TokEngine("C16", tier)
-    n_case, n_blank, n_comment = (48, 20, 32) if quick else (80, 28, 48)
+    n_case, n_blank, n_comment, n_skip = (28, 16, 24, 40) if quick else (64, 24, 40, 40)
     units = [("c16.case", ["-DMODE_CASE", "-DNMAX=%d" % n_case]),
              ("c16.blank", ["-DMODE_BLANK", "-DNMAX=%d" % n_blank]),
              ("c16.comment_crlf", ["-DMODE_COMMENT", "-DNMAX=%d" % n_comment]),
-             ("c16.skip_lines", ["-DMODE_SKIP", "-DNMAX=40"])]
+             ("c16.skip_lines", ["-DMODE_SKIP", "-DNMAX=%d" % n_skip])]
     if only:
         units = [u for u in units if fnmatch.fnmatch(u[0], only)]
 
+    # valid lines (placeholder registers are real names) for confirming a filter-level counterexample through the public API
+    corpus = sorted({s.text().strip() for s in families.c01_families(True) + families.c04_families(True) + families.c03_families(True)[::3] +
+                     families.c05_families(True)[::8] + families.c02_families(True, pool=True)[::9]})
+
+    def confirm(mode):
+        def fn(engine, tag, cfile, defs, inputs, res):
+            rp = engine.replay(tag, cfile, defs, inputs, ("vf_main.c", "libc_models.c"))
+            if rp["reproduced"]:
+                return rp
+            ok, detail = tok.rel_confirm(engine, mode, corpus)
+            rp2 = dict(rp)
+            rp2.update(reproduced=ok, output=detail, text=detail[:200])
+            return rp2
+        return fn
+
     def ujob(u):
-        return te.unit(u[0], "tok_filter.c", defs=u[1], replace=LTI, unwind=110, checks="default", timeout=3000,
-                       unwindset={"strstr.0": 110, "strstr.1": 110, "strlen.0": 110, "strchr.0": 110})
+        mode = {"c16.case": "case", "c16.blank": "blank", "c16.comment_crlf": "comment"}.get(u[0])
+        return te.unit(u[0], "tok_filter.c", defs=u[1], replace=LTI, unwind=110, checks="default", timeout=700 if quick else 3000,
+                       unwindset={"strstr.0": 110, "strstr.1": 110, "strlen.0": 110, "strchr.0": 110},
+                       replay_fn=confirm(mode) if mode else None)
     rep.add(core.pmap(ujob, units))
     return rep.finish(
         {"symbolic_per_query": "case: a line of up to %d arbitrary printable characters with an arbitrary subset of its letters case-flipped; blank: a line of up to %d characters with spaces/tabs inserted at arbitrary places before the mnemonic and after the first separator; comment: arbitrary trailing ';' comment and LF vs CRLF; skip_lines: arbitrary label / section / global lines followed by an instruction; base: the same symbolic value written in hexadecimal, in decimal and with leading zeros (immediates, displacements, branch targets) on two instances with the same options" % (n_case // 2, n_blank // 2),
